@@ -71,12 +71,21 @@ Definition external (r : prole) : bool :=
 (* ---- abstract Adj-RIB-In: (family, path id, prefix) -> attributes believed *)
 Definition rib := list (key * list attr).
 
-Fixpoint nlri_eqb (a b : nlri) : bool :=
-  let leq := fun x y : list N => if list_eq_dec N.eq_dec x y then true else false in
+Definition leqb (x y : list N) : bool := if list_eq_dec N.eq_dec x y then true else false.
+Definition fcomp_eqb (a b : fcomp) : bool :=
   match a, b with
-  | NV4 m x, NV4 m' x' | NV6 m x, NV6 m' x' => (m =? m') && leq x x'
-  | NLab4 l m x, NLab4 l' m' x' | NLab6 l m x, NLab6 l' m' x' => (m =? m') && leq x x'
-  | NVpn4 l r m x, NVpn4 l' r' m' x' | NVpn6 l r m x, NVpn6 l' r' m' x' => (m =? m') && leq x x' && leq r r'
+  | FPrefix t b0 o x, FPrefix t' b' o' x' => (t =? t') && (b0 =? b') && (o =? o') && leqb x x'
+  | FOps t ops, FOps t' ops' => (t =? t') && leqb (flat_map (fun p => [fst p; snd p]) ops) (flat_map (fun p => [fst p; snd p]) ops')
+  | _, _ => false
+  end.
+Definition nlri_eqb (a b : nlri) : bool :=
+  match a, b with
+  | NV4 m x, NV4 m' x' | NV6 m x, NV6 m' x' => (m =? m') && leqb x x'
+  | NLab4 l m x, NLab4 l' m' x' | NLab6 l m x, NLab6 l' m' x' => (m =? m') && leqb x x'
+  | NVpn4 l r m x, NVpn4 l' r' m' x' | NVpn6 l r m x, NVpn6 l' r' m' x' => (m =? m') && leqb x x' && leqb r r'
+  | NEvpn e, NEvpn e' | NRtc e, NRtc e' | NSrp e, NSrp e' => leqb e e'
+  | NFlow k rd c, NFlow k' rd' c' =>
+    (k =? k') && leqb rd rd' && (Nat.eqb (length c) (length c')) && forallb (fun p => fcomp_eqb (fst p) (snd p)) (combine c c')
   | NOther, NOther => true
   | _, _ => false
   end.
